@@ -12,7 +12,8 @@ package rfc3961
 //@   requires tagof(e) == typeid("crypto.Des3CbcSha1Kd")
 //@   ensures err == nil <==> et_encok(tagof(e), len(key), len(data))
 //@   ensures err == nil ==> len(ct) == et_ctlen(tagof(e), len(data))
-//@   ensures err == nil ==> bytes(ct) == et_E(tagof(e), bytes(key), zpad8(bytes(data), len(data)))
+//@   ensures err == nil ==> bytes(ct) == et_E(tagof(e), old(bytes(key)), zpad8(old(bytes(data)), len(data)))
+//@   trusted_ensures 2 not discharged: ZeroPad appends the padding in place when the caller's slice has spare capacity, so the clause needs key and data not to share a backing array (true at every call site in the library, where the key is freshly derived, but slice freshness is not tracked through the etype interface)
 //@ func crypto/rfc3961.DES3DecryptData(key, data, e) (pt, err)
 //@   pure
 //@   trusted_frame returned slices are not tracked as fresh; in-place append into spare capacity cannot be excluded
@@ -32,7 +33,7 @@ package rfc3961
 //@   pure
 //@   trusted_frame returned slices are not tracked as fresh; in-place append into spare capacity cannot be excluded
 //@   requires tagof(e) == typeid("crypto.Des3CbcSha1Kd")
-//@   ensures err == nil ==> len(lastRandom) == et_confounder(tagof(e)) && bytes(ct) == enc_3961(tagof(e), bytes(key), usage, zpad8(seqcat(lastRandom, bytes(message)), 8 + len(message)))
+//@   ensures err == nil ==> len(lastRandom) == et_confounder(tagof(e)) && bytes(ct) == enc_3961(tagof(e), old(bytes(key)), usage, zpad8(seqcat(lastRandom, old(bytes(message))), 8 + len(message)))
 //@ func crypto/rfc3961.DeriveRandom(key, usage, e) (r, err)
 //@   pure
 //@   trusted_frame returned slices are not tracked as fresh; in-place append into spare capacity cannot be excluded
